@@ -390,3 +390,44 @@ func H_C28_cleanupAfterPollSweep() {
 		}
 	}
 }
+
+// H_C28_cleanupKeepsEachPeersOwnRecord: the cleanup sweep rewrites every kept record (status update).  With one
+// peer stored with a capability, an address and a last-poll time and the other stored bare (which of A, B is
+// which is drawn; both observed a minute ago, both disconnected), each record still holds its own peer's data
+// after the sweep: the bare peer has no capability, no address and no poll time, the other one reloads what was
+// stored.  (A decoder that reuses one record for all keys leaks the members the bare record omits.)
+// Bounds: 2 peers, one sweep.
+func H_C28_cleanupKeepsEachPeersOwnRecord() {
+	zzverif.Unwind(64)
+	vClockStart()
+	env := vNewEnv(nil, nil)
+	rich, bare := vPeerA, vPeerB
+	if zzverif.Bool("bare_is_first") {
+		rich, bare = vPeerB, vPeerA
+	}
+	p := NewPeer(vID(rich), "10.0.0.1:9735")
+	p.SetLastPollAt(time.Now().Add(-time.Minute))
+	p.SetLastObservedAt(time.Now().Add(-time.Minute))
+	p.SetStatus(StatusActive)
+	snap := PeerCapabilitySnapshot{Version: 7, Assets: []string{"BTC"}, PeerAllowed: true, BTCSwapOutPremiumRatePPM: zzverif.I64("rich.btc_out")}
+	zzverif.Assume(snap.BTCSwapOutPremiumRatePPM >= -1000000 && snap.BTCSwapOutPremiumRatePPM <= 1000000)
+	p.capability = NewPeerCapability(NewVersion(7), []Asset{AssetBTC}, true, premium.NewPPM(0), premium.NewPPM(snap.BTCSwapOutPremiumRatePPM), premium.NewPPM(0), premium.NewPPM(0))
+	q := NewPeer(vID(bare), "")
+	q.SetLastObservedAt(time.Now().Add(-time.Minute))
+	q.SetStatus(StatusActive)
+	if env.store.SavePeerState(p) != nil || env.store.SavePeerState(q) != nil {
+		zzverif.Fail("harness: seeding the store failed")
+	}
+
+	err := env.ps.poller.cleanupExpired(context.Background())
+	vClockSettle()
+
+	zzverif.Assert(err == nil, "C28.cleanup_of_fresh_peers_succeeds")
+	pr, perr := env.store.GetPeerState(vID(rich))
+	qr, qerr := env.store.GetPeerState(vID(bare))
+	zzverif.Assert(perr == nil && qerr == nil && pr != nil && qr != nil, "C28.fresh_disconnected_peers_kept")
+	if pr != nil && qr != nil {
+		zzverif.Assert(qr.Capability() == nil && qr.Address() == "" && qr.LastPollAt().IsZero(), "C28.cleanup_keeps_a_bare_record_bare")
+		zzverif.Assert(vMatchesSnapshot(pr.Capability(), snap) && pr.Address() == "10.0.0.1:9735" && !pr.LastPollAt().IsZero(), "C28.cleanup_keeps_a_stored_capability")
+	}
+}
